@@ -424,7 +424,9 @@ func (w *vWorld) buildRequest(q vReq) *http.Request {
 		req.SetBasicAuth(q.Basic[0], q.Basic[1])
 	}
 	req.RemoteAddr = "192.0.2.10:40000"
-	if q.Remote != "" {
+	if q.Remote == "-" {
+		req.RemoteAddr = "" // explicitly no peer address
+	} else if q.Remote != "" {
 		req.RemoteAddr = q.Remote
 	}
 	if !q.NoTLS {
